@@ -81,6 +81,7 @@ class StatThresholdAnomaliser(CollectiveAnomalyDetector):
         y : `pd.Series` - annotations for sequence `X`
             exact format depends on annotation type
         """
+        X = pd.DataFrame(X)  # np.ndarray input cannot be concatenated below.
         # This is the required output format for the rest of the code to work.
         segments = self.change_detector_.transform(X)["labels"]
         df = pd.concat([X, segments], axis=1)
